@@ -41,6 +41,8 @@ let run line =
       let bo = Model.build_open l in
       let sent = Printf.sprintf "(open %s %s %s %s (%s))" (zs bo.Model.o_ver) (zs bo.Model.o_as) (zs bo.Model.o_hold) (zs bo.Model.o_id)
                    (String.concat " " (List.map show_cap bo.Model.o_caps)) in
+      let dom = Printf.sprintf " (dom %s)" (bs (Model.dominant l o)) in
+      (fun r -> r ^ dom)
       (match Model.validate_open l o with
        | Model.Notif (c, s) -> Printf.sprintf "ok %s (notif %s %s)" sent (zs c) (zs s)
        | Model.Accept ->
